@@ -3,7 +3,7 @@
 Python dicts and sets compare their keys with __hash__/__eq__.  In the lifted world, instances of
 repository classes are `Obj`s and their __eq__ lives in the analysed source, so the containers below
 find an existing equal key by calling the *lifted* __eq__ (through `interp.obj_eq`).  `VSet` also makes
-the iteration order of a set an explicit parameter of the analysis ("fifo" / "lifo"): real sets of
+the iteration order of a set an explicit parameter of the analysis ("fifo" / "lifo" / "keyed:<salt>"): real sets of
 objects hashed by id / by string hash iterate in an order that depends on the process, so a result
 that changes with this parameter depends on incidental process state.
 """
@@ -233,7 +233,23 @@ class VSet(set, _Keys):
         return self._has(x)
 
     def __iter__(self):
-        return iter(list(self._items) if self._order == "fifo" else list(reversed(self._items)))
+        if self._order == "fifo":
+            return iter(list(self._items))
+        if self._order == "lifo":
+            return iter(list(reversed(self._items)))
+        # 'keyed:<salt>': like a hash table, the order is a function of the elements (not of the
+        # insertion history): sort by a salted digest of a stable element name
+        import hashlib
+
+        salt = self._order.split(":", 1)[1]
+
+        def key(x):
+            from .lift import Obj
+
+            name = f"obj{x.attrs.get('_serial', x.kind)}" if isinstance(x, Obj) else repr(x)
+            return hashlib.sha256(f"{salt}:{name}".encode()).digest()
+
+        return iter(sorted(self._items, key=key))
 
     def __len__(self):
         return len(self._items)
